@@ -127,7 +127,91 @@ func (c *Ctx) guard(s *obSink, pkg, fn, key string, must []string, what, consequ
 			return
 		}
 	}
+	// the guard may live in a helper called from fn whose error fn returns (one level)
+	if !strings.Contains(fn, "/") && len(must) > 0 {
+		seen := map[string]bool{}
+		var helpers []string
+		ast.Inspect(fd, func(n ast.Node) bool {
+			if call, ok := n.(*ast.CallExpr); ok {
+				if id, ok := call.Fun.(*ast.Ident); ok && !seen[id.Name] && id.Name != fd.Name.Name {
+					seen[id.Name] = true
+					helpers = append(helpers, id.Name)
+				}
+			}
+			return true
+		})
+		for _, h := range helpers {
+			hd, _ := c.funcDecl(pkg, h)
+			if hd == nil || hd.Type.Results == nil {
+				continue
+			}
+			for _, i := range ifsIn(hd) {
+				ok := true
+				for _, m := range must {
+					// parameter names may differ in the helper: compare without the receiver/variable prefix
+					mm := nows(m)
+					if !strings.Contains(i.cond, mm) && !strings.Contains(i.cond, mm[strings.Index(mm, ".")+1:]) {
+						ok = false
+					}
+				}
+				if ok && returnsErr(i.st.Body) && c.helperErrorPropagated(pkg, fn, h) {
+					s.ok(key, c.Pos(i.st.Pos()), what+": `"+types.ExprString(i.st.Cond)+"` in helper "+h+" returns an error that "+fn+" returns")
+					return
+				}
+			}
+		}
+	}
 	s.bad(key, c.Pos(fd.Pos()), "no guard for "+what+" in "+fn+" (expected a condition mentioning "+strings.Join(must, " and ")+" whose branch returns an error): "+consequence)
+}
+
+// helperErrorPropagated: in fn, the error result of every call of helper h is tested and its failure edge returns an error.
+func (c *Ctx) helperErrorPropagated(pkg, fn, h string) bool {
+	f := c.SSA[pkg].Func(fn)
+	if f == nil {
+		return false
+	}
+	n := 0
+	for _, b := range f.Blocks {
+		for _, ins := range b.Instrs {
+			call, ok := ins.(*ssa.Call)
+			if !ok || call.Call.StaticCallee() == nil || call.Call.StaticCallee().Name() != h {
+				continue
+			}
+			n++
+			var errv ssa.Value
+			if isErrorType(call.Type()) {
+				errv = call
+			}
+			for _, r := range referrers(call) {
+				if ex, ok := r.(*ssa.Extract); ok && isErrorType(ex.Type()) {
+					errv = ex
+				}
+			}
+			if errv == nil {
+				return false
+			}
+			okEdge := false
+			for _, r := range referrers(errv) {
+				if bo, ok := r.(*ssa.BinOp); ok && (bo.Op == token.NEQ || bo.Op == token.EQL) {
+					for _, rr := range referrers(bo) {
+						if iff, ok := rr.(*ssa.If); ok {
+							fail := iff.Block().Succs[0]
+							if bo.Op == token.EQL {
+								fail = iff.Block().Succs[1]
+							}
+							if edgeErrors(fail) {
+								okEdge = true
+							}
+						}
+					}
+				}
+			}
+			if !okEdge {
+				return false
+			}
+		}
+	}
+	return n > 0
 }
 
 func ruleRefusals(c *Ctx) []Ob {
@@ -365,25 +449,38 @@ func ruleRefusals(c *Ctx) []Ob {
 	c.entryGuard(s, createFn, "create:not-struct", re(`^Kind\(.+\)==%d$`, kStruct), "argument that is neither a struct nor a pointer to one", "")
 	// the argument checks of createStructDesc come before its first cache lookup (a lookup keyed by the element type of a
 	// ** pointer would otherwise hit the entry of *T)
-	if fd, _ := c.funcDecl(pkgReflect, "createStructDesc"); fd != nil {
-		firstGet, lastGuard := token.NoPos, token.NoPos
-		ast.Inspect(fd, func(n ast.Node) bool {
-			switch x := n.(type) {
-			case *ast.CallExpr:
-				f := nows(types.ExprString(x.Fun))
-				if (f == "sds.Get" || f == "sds.Set" || f == "newStructDescAndPrefetch") && (!firstGet.IsValid() || x.Pos() < firstGet) {
-					firstGet = x.Pos()
+	if createFn != nil {
+		// every consultation or update of the descriptor caches in createStructDesc happens where the kind is established
+		structRe := re(`^Kind\(.+\)==%d$`, kStruct)
+		okAll, n := true, 0
+		where := ""
+		buildFn := c.buildFn()
+		for _, b := range createFn.Blocks {
+			for _, ins := range b.Instrs {
+				call, ok := ins.(*ssa.Call)
+				if !ok || call.Call.StaticCallee() == nil {
+					continue
 				}
-			case *ast.IfStmt:
-				if strings.Contains(nows(types.ExprString(x.Cond)), "Kind()!=reflect.Struct") && returnsErr(x.Body) && x.Pos() > lastGuard {
-					lastGuard = x.Pos()
+				cf := call.Call.StaticCallee()
+				if !(strings.HasPrefix(shortFn(cf), "mapStructDesc.") || cf == buildFn || staticReach(cf)[buildFn] && buildFn != nil) {
+					continue
+				}
+				n++
+				found := false
+				for f := range blockFacts(b) {
+					if structRe.MatchString(f) {
+						found = true
+					}
+				}
+				if !found {
+					okAll = false
+					where = c.InstrPos(call) + " facts: " + strings.Join(keysOf(blockFacts(b)), ", ")
 				}
 			}
-			return true
-		})
-		s.check(firstGet.IsValid() && lastGuard.IsValid() && lastGuard < firstGet, "create:guard-before-lookup", c.Pos(fd.Pos()), "kind checks precede the descriptor lookup", "createStructDesc consults or fills the descriptor cache before it has established that the argument is a struct or a pointer to one: a **T argument can be served the descriptor registered for *T")
+		}
+		s.check(okAll && n > 0, "create:guard-before-lookup", c.Pos(createFn.Pos()), "kind checks precede the descriptor lookup", "createStructDesc consults or fills the descriptor cache ("+where+") before it has established that the argument is a struct or a pointer to one: a **T argument can be served the descriptor registered for *T")
 	}
-	c.entryGuard(s, c.SSA[pkgReflect].Func("newStructDesc"), "newdesc:not-struct", re(`^Kind\(\w+\)==%d$`, kStruct), "descriptor of a non-struct", "")
+	c.entryGuard(s, c.SSA[pkgReflect].Func("newStructDesc"), "newdesc:not-struct", re(`^Kind\(.+\)==%d$`, kStruct), "descriptor of a non-struct", "")
 	// Append returns the error before producing bytes; EncodedSize panics with it
 	if fn := c.SSA[pkgReflect].Func("Append"); fn != nil {
 		good := false
@@ -794,33 +891,70 @@ func ruleE12(c *Ctx) []Ob {
 		s.bad("DoResolveFields", "-", "not found")
 		return s.obs
 	}
-	// skip conditions: the loop's first ifs `continue`
-	contConds := map[string]bool{}
-	for _, i := range ifsIn(rfd) {
-		hasCont := false
-		for _, st := range i.st.Body.List {
-			if bs, ok := st.(*ast.BranchStmt); ok && bs.Tok == token.CONTINUE {
-				hasCont = true
+	// skip conditions: a struct field is processed (its annotation parsed) only when it is not embedded, is exported and
+	// carries a frugal/thrift tag - read off the branches that dominate the call of ParseType
+	anon, exported, untagged := false, false, false
+	var parseSite ssa.Instruction
+	for _, fn := range c.ModuleFuncs(pkgDefs) {
+		for _, b := range fn.Blocks {
+			for _, ins := range b.Instrs {
+				call, ok := ins.(*ssa.Call)
+				if !ok || call.Call.StaticCallee() == nil || call.Call.StaticCallee().Name() != "ParseType" || fn.Name() == "ParseType" {
+					continue
+				}
+				parseSite = call
+				for _, cd := range domConds(b) {
+					fieldNameOf := func(v ssa.Value) string {
+						switch x := v.(type) {
+						case *ssa.Field:
+							return fieldName(x.X.Type(), x.Field)
+						case *ssa.UnOp:
+							if fa, ok := x.X.(*ssa.FieldAddr); ok && x.Op == token.MUL {
+								return fieldName(fa.X.Type(), fa.Field)
+							}
+						}
+						return ""
+					}
+					if fieldNameOf(cd.V) == "Anonymous" && !cd.Truth {
+						anon = true
+					}
+					if bo, ok := cd.V.(*ssa.BinOp); ok && (bo.Op == token.EQL || bo.Op == token.NEQ) {
+						for _, pr := range [][2]ssa.Value{{bo.X, bo.Y}, {bo.Y, bo.X}} {
+							if w, isS := strConst(pr[1]); isS && w == "" && fieldNameOf(pr[0]) == "PkgPath" && (bo.Op == token.EQL) == cd.Truth {
+								exported = true
+							}
+						}
+					}
+					if ex, ok := cd.V.(*ssa.Extract); ok && cd.Truth && isBoolType(ex.Type()) {
+						if lc, ok := ex.Tuple.(*ssa.Call); ok && lc.Call.StaticCallee() != nil && lc.Call.StaticCallee().Name() == "lookupStructTag" {
+							untagged = true
+						}
+					}
+					if ec, ok := cd.V.(*ssa.Call); ok && cd.Truth && ec.Call.StaticCallee() != nil && ec.Call.StaticCallee().Name() == "IsExported" && fnPkgPath(ec.Call.StaticCallee()) == "reflect" {
+						exported = true
+					}
+				}
 			}
 		}
-		if hasCont {
-			contConds[i.cond] = true
+	}
+	sitePos := c.Pos(rfd.Pos())
+	if parseSite != nil {
+		sitePos = c.InstrPos(parseSite)
+	}
+	s.check(anon && exported, "skip-anonymous-unexported", sitePos, "embedded and unexported fields are ignored", fmt.Sprintf("a struct field reaches ParseType without both tests `!sf.Anonymous` (%v) and `sf.PkgPath == \"\"` (%v): embedded or unexported fields would become schema fields", anon, exported))
+	// the schema is made of the struct's own fields: promoted fields of embedded structs (reflect.VisibleFields) are not part of it
+	var vis []string
+	for _, fn := range c.ModuleFuncs(pkgDefs, pkgReflect) {
+		for _, b := range fn.Blocks {
+			for _, ins := range b.Instrs {
+				if call, ok := ins.(*ssa.Call); ok && call.Call.StaticCallee() != nil && fnPkgPath(call.Call.StaticCallee()) == "reflect" && call.Call.StaticCallee().Name() == "VisibleFields" {
+					vis = append(vis, shortFn(fn)+" at "+c.InstrPos(call))
+				}
+			}
 		}
 	}
-	anon := false
-	for k := range contConds {
-		if strings.HasSuffix(k, `sf.Anonymous||sf.PkgPath!=""`) {
-			anon = true
-		}
-	}
-	s.check(anon, "skip-anonymous-unexported", c.Pos(rfd.Pos()), "embedded and unexported fields are ignored", fmt.Sprintf("no `if sf.Anonymous || sf.PkgPath != \"\" { continue }` (continue conditions: %v): embedded or unexported fields would become schema fields", keysOf(contConds)))
-	untagged := false
-	for k := range contConds {
-		if strings.HasSuffix(k, ";!ok") && strings.Contains(k, "lookupStructTag") {
-			untagged = true
-		}
-	}
-	s.check(untagged, "skip-untagged", c.Pos(rfd.Pos()), "untagged fields are ignored", "fields without a frugal/thrift tag are not skipped")
+	s.check(len(vis) == 0, "own-fields-only", sitePos, "struct fields are enumerated with Field(i), never with reflect.VisibleFields", "fields are enumerated with reflect.VisibleFields ("+strings.Join(vis, "; ")+"): it also yields the fields promoted from embedded structs, whose offsets are relative to the embedded struct - they would join the schema and be read at the wrong address")
+	s.check(untagged, "skip-untagged", sitePos, "untagged fields are ignored", "fields without a frugal/thrift tag are not skipped")
 	// missing requiredness -> default: the value compared against the requiredness keywords can be the constant "default",
 	// chosen when no tag value is left
 	okDef := false
